@@ -594,7 +594,7 @@ def points_for(terms):
 def gen_equation(r, case, idx):
     name = 'i%d' % idx
     shape = r.choice(['outer', 'outer', 'plain', 'additive', 'additiveV', 'factorV', 'prod_same', 'prod_diff',
-                      'sum_same', 'sum_diff', 'nopattern', 'nopattern', 'excluded', 'pwouter', 'outer_sum_same'])
+                      'sum_same', 'sum_diff', 'nopattern', 'nopattern', 'excluded', 'pwouter', 'outer_sum_same', 'recip'])
     V = ['v', 'V']
     P = lambda: lit_or_const(r, case, r.choice(['0.32', '3', '-2.1', '120', '0.0005', '-0.08', '7.5']))   # noqa: E731
     kind, merge = 'pattern', None
@@ -623,6 +623,10 @@ def gen_equation(r, case, idx):
         ast = ['*', ['sw', ['n', repr(thr)], P(), P()], g1]
     elif shape == 'additive':
         ast = ['+', ['*', P(), g1], P()]
+    elif shape == 'recip':
+        # the term (with an additive constant that keeps the denominator away from zero) in a denominator
+        c = lit_or_const(r, case, r.choice(['400', '250.5', '1000']))
+        ast = ['/', P(), ['+', c, g1]]
     elif shape == 'additiveV':
         ast = ['+', g1, ['*', P(), V]]
     elif shape == 'factorV':
